@@ -122,6 +122,29 @@ fn case(ctx: &mut Ctx, tag: &str, text: &str) {
     let added = Program::from_str(text)
         .unwrap_or_else(|e| panic!("program does not parse: {text:?}: {e}"))
         .to_instructions();
+    case_instructions(ctx, tag, added);
+}
+
+/// API-only shape: DELAY / RAW-CAPTURE with a NEGATIVE literal duration (the parser yields a prefix expression,
+/// which has no duration). The ASAP clauses must still hold; exclusivity is only claimed for durations >= 0.
+fn case_negated(ctx: &mut Ctx, tag: &str, text: &str) {
+    let mut added = Program::from_str(text).expect("parses").to_instructions();
+    let neg = |e: &mut Expression| {
+        if let Expression::Number(z) = e {
+            *z = num_complex::Complex64::new(-z.re, z.im);
+        }
+    };
+    for i in added.iter_mut() {
+        match i {
+            Instruction::Delay(d) => neg(&mut d.duration),
+            Instruction::RawCapture(r) => neg(&mut r.duration),
+            _ => {}
+        }
+    }
+    case_instructions(ctx, tag, added);
+}
+
+fn case_instructions(ctx: &mut Ctx, tag: &str, added: Vec<Instruction>) {
     let program = Program::from_instructions(added.clone());
     let handler = DefaultHandler;
     let source_block: BasicBlock = match BasicBlock::try_from(&program) {
@@ -199,6 +222,78 @@ fn case(ctx: &mut Ctx, tag: &str, text: &str) {
     });
 }
 
+/// Sibling entry points of the flat schedule: the generic `as_schedule` with a caller-supplied duration
+/// closure (same durations), `into_items` vs `items`, `TimeSpan::end`.
+fn flat_siblings(sb: &ScheduledBasicBlock<'_>, program: &Program, s: &ScheduleSeconds) -> Option<&'static str> {
+    let table: Vec<(*const Instruction, f64)> = s
+        .items()
+        .iter()
+        .map(|it| (sb.instructions()[it.instruction_index] as *const Instruction, it.time_span.duration().0))
+        .collect();
+    let generic = sb.as_schedule(program, |_, i| {
+        table.iter().find(|(p, _)| std::ptr::eq(*p, i)).map(|(_, d)| quil_rs::program::scheduling::Seconds(*d))
+    });
+    match generic {
+        Ok(g) if schedule_sexp(&g) == schedule_sexp(s) => {}
+        _ => return Some("as_schedule"),
+    }
+    for it in s.items() {
+        if it.time_span.end().0 != it.time_span.start_time().0 + it.time_span.duration().0 {
+            return Some("end");
+        }
+    }
+    let d = s.duration().0;
+    let items = s.clone().into_items();
+    if items.len() != s.items().len() || items.iter().zip(s.items()).any(|(a, b)| a != b) || d != s.duration().0 {
+        return Some("into_items");
+    }
+    None
+}
+
+/// Sibling entry points of the block-level schedule: generic `BasicBlock::as_schedule` with a duration closure,
+/// and the `BasicBlockOwned` round trip.
+fn block_siblings(
+    source_block: &BasicBlock<'_>,
+    program: &Program,
+    handler: &DefaultHandler,
+    flat: &[Instruction],
+    s: &ScheduleSeconds,
+) -> Option<&'static str> {
+    // durations of the expanded instructions, looked up structurally (the closure sees clones)
+    let expanded = {
+        let mut p = Program::new();
+        p.add_instructions(flat.to_vec());
+        if let Some(t) = source_block.terminator().clone().into_instruction() {
+            p.add_instruction(t);
+        }
+        p
+    };
+    let blocks = ControlFlowGraph::from(&expanded).into_blocks();
+    let sb = ScheduledBasicBlock::build(blocks[0].clone(), program, handler).ok()?;
+    let flat_schedule = sb.as_schedule_seconds(program, handler).ok()?;
+    let table: Vec<(&Instruction, f64)> = flat_schedule
+        .items()
+        .iter()
+        .map(|it| (sb.instructions()[it.instruction_index], it.time_span.duration().0))
+        .collect();
+    let generic = source_block.as_schedule(
+        program,
+        |_, i| table.iter().find(|(j, _)| *j == i).map(|(_, d)| quil_rs::program::scheduling::Seconds(*d)),
+        handler,
+    );
+    match generic {
+        Ok(g) if schedule_sexp(&g) == schedule_sexp(s) => {}
+        _ => return Some("block-as_schedule"),
+    }
+    let owned = quil_rs::program::analysis::BasicBlockOwned::from(source_block.clone());
+    let back: BasicBlock = (&owned).into();
+    match back.as_schedule_seconds(program, handler) {
+        Ok(g) if schedule_sexp(&g) == schedule_sexp(s) => {}
+        _ => return Some("owned"),
+    }
+    None
+}
+
 fn compute(
     expanded_blocks: &[BasicBlock<'_>],
     program: &Program,
@@ -212,8 +307,16 @@ fn compute(
             Ok(sb) => {
                 let g = encode_graph(&sb);
                 let s = match sb.as_schedule_seconds(program, handler) {
-                    Ok(s) => schedule_sexp(&s),
-                    Err(e) => computed_err(&e),
+                    Ok(s) => {
+                        if let Some(which) = flat_siblings(&sb, program, &s) {
+                            return tagged("sibling-mismatch", vec![atom(which)]);
+                        }
+                        schedule_sexp(&s)
+                    }
+                    Err(e) => {
+                        format_error(&e);
+                        computed_err(&e)
+                    }
                 };
                 (g, s)
             }
@@ -226,16 +329,26 @@ fn compute(
             ),
         };
         let block_schedule = match source_block.as_schedule_seconds(program, handler) {
-            Ok(s) => schedule_sexp(&s),
-            Err(BasicBlockScheduleError::ScheduleError(_)) => tagged("err", vec![atom("sched")]),
-            Err(BasicBlockScheduleError::ComputedScheduleError(e)) => computed_err(&e),
-            Err(BasicBlockScheduleError::ProgramError(_)) => tagged("err", vec![atom("program")]),
+            Ok(s) => {
+                if let Some(which) = block_siblings(source_block, program, handler, flat, &s) {
+                    return tagged("sibling-mismatch", vec![atom(which)]);
+                }
+                schedule_sexp(&s)
+            }
+            Err(e) => {
+                format_error(&e);
+                match e {
+                    BasicBlockScheduleError::ScheduleError(_) => tagged("err", vec![atom("sched")]),
+                    BasicBlockScheduleError::ComputedScheduleError(e) => computed_err(&e),
+                    BasicBlockScheduleError::ProgramError(_) => tagged("err", vec![atom("program")]),
+                }
+            }
         };
         tagged("res", vec![graph, flat_schedule, block_schedule])
     }
 }
 
-const HDR: &str = "DEFFRAME 0 \"x\":\n    SAMPLE-RATE: 4.0\nDEFFRAME 0 \"y\":\n    SAMPLE-RATE: 8.0\nDEFFRAME 1 \"x\":\n    SAMPLE-RATE: 4.0\nDEFFRAME 0 1 \"z\":\n    SAMPLE-RATE: 4.0\nDEFFRAME 2 \"n\":\n    INITIAL-FREQUENCY: 1.0\nDEFWAVEFORM w4:\n    1, 1, 1, 1\nDEFWAVEFORM w2:\n    1, 1\nDEFWAVEFORM ramp(%duration):\n    1, 1, 1, 1\nDEFWAVEFORM padded(%pad_left, %pad_right, %amp):\n    1, 1\nDEFCAL A 0:\n    PULSE 0 \"x\" flat(duration: 1.0, iq: 1.0)\nDEFCAL B 0 1:\n    FENCE 1\n    PULSE 0 1 \"z\" flat(duration: 1.0, iq: 1.0)\nDEFCAL C q:\n    DELAY q 0.5\n    A q\n    SHIFT-PHASE q \"x\" 1.0\nDEFCAL RX(%t) 0:\n    SHIFT-PHASE 0 \"x\" %t\n    PULSE 0 \"x\" w4\n    NONBLOCKING PULSE 0 \"y\" w4\nDEFCAL MEASURE 0 addr:\n    CAPTURE 0 \"y\" flat(duration: 0.25, iq: 1.0) addr\nDEFCAL G 0:\n    NONBLOCKING PULSE 0 \"y\" flat(duration: 1.0, iq: 1.0)\n    NONBLOCKING PULSE 0 \"x\" flat(duration: 10.0, iq: 1.0)\nDEFCAL H 0:\n    NONBLOCKING PULSE 0 \"x\" flat(duration: 4.0, iq: 1.0)\n    NONBLOCKING PULSE 0 \"y\" flat(duration: 0.5, iq: 1.0)\nDEFCAL KF 0 1:\n    NONBLOCKING PULSE 1 \"x\" flat(duration: 0.5, iq: 1.0)\n    NONBLOCKING PULSE 0 \"x\" flat(duration: 3.0, iq: 1.0)\n    NONBLOCKING CAPTURE 0 \"y\" flat(duration: 1.5, iq: 1.0) ro[0]\n    FENCE 0 1\nDEFCAL K3 0 1:\n    NONBLOCKING PULSE 0 \"x\" flat(duration: 2.0, iq: 1.0)\n    NONBLOCKING PULSE 1 \"x\" flat(duration: 5.0, iq: 1.0)\n    NONBLOCKING PULSE 0 \"y\" flat(duration: 0.25, iq: 1.0)\nDEFCAL N 0:\n    G 0\n    H 0\nDEFCAL D 0 1:\n    DELAY 0 \"x\" 2.0\n    DELAY 1 \"x\" 0.25\n    DELAY 0 \"y\" 1.0\n";
+const HDR: &str = "DEFFRAME 0 \"x\":\n    SAMPLE-RATE: 4.0\nDEFFRAME 0 \"y\":\n    SAMPLE-RATE: 8.0\nDEFFRAME 1 \"x\":\n    SAMPLE-RATE: 4.0\nDEFFRAME 0 1 \"z\":\n    SAMPLE-RATE: 4.0\nDEFFRAME 2 \"n\":\n    INITIAL-FREQUENCY: 1.0\nDEFFRAME 2 \"s\":\n    SAMPLE-RATE: \"4.0\"\nDEFFRAME 2 \"l\":\n    sample-rate: 4.0\nDEFWAVEFORM w4:\n    1, 1, 1, 1\nDEFWAVEFORM w2:\n    1, 1\nDEFWAVEFORM ramp(%duration):\n    1, 1, 1, 1\nDEFWAVEFORM padded(%pad_left, %pad_right, %amp):\n    1, 1\nDEFCAL A 0:\n    PULSE 0 \"x\" flat(duration: 1.0, iq: 1.0)\nDEFCAL B 0 1:\n    FENCE 1\n    PULSE 0 1 \"z\" flat(duration: 1.0, iq: 1.0)\nDEFCAL C q:\n    DELAY q 0.5\n    A q\n    SHIFT-PHASE q \"x\" 1.0\nDEFCAL RX(%t) 0:\n    SHIFT-PHASE 0 \"x\" %t\n    PULSE 0 \"x\" w4\n    NONBLOCKING PULSE 0 \"y\" w4\nDEFCAL MEASURE 0 addr:\n    CAPTURE 0 \"y\" flat(duration: 0.25, iq: 1.0) addr\nDEFCAL G 0:\n    NONBLOCKING PULSE 0 \"y\" flat(duration: 1.0, iq: 1.0)\n    NONBLOCKING PULSE 0 \"x\" flat(duration: 10.0, iq: 1.0)\nDEFCAL H 0:\n    NONBLOCKING PULSE 0 \"x\" flat(duration: 4.0, iq: 1.0)\n    NONBLOCKING PULSE 0 \"y\" flat(duration: 0.5, iq: 1.0)\nDEFCAL KF 0 1:\n    NONBLOCKING PULSE 1 \"x\" flat(duration: 0.5, iq: 1.0)\n    NONBLOCKING PULSE 0 \"x\" flat(duration: 3.0, iq: 1.0)\n    NONBLOCKING CAPTURE 0 \"y\" flat(duration: 1.5, iq: 1.0) ro[0]\n    FENCE 0 1\nDEFCAL K3 0 1:\n    NONBLOCKING PULSE 0 \"x\" flat(duration: 2.0, iq: 1.0)\n    NONBLOCKING PULSE 1 \"x\" flat(duration: 5.0, iq: 1.0)\n    NONBLOCKING PULSE 0 \"y\" flat(duration: 0.25, iq: 1.0)\nDEFCAL N 0:\n    G 0\n    H 0\nDEFCAL D 0 1:\n    DELAY 0 \"x\" 2.0\n    DELAY 1 \"x\" 0.25\n    DELAY 0 \"y\" 1.0\n";
 
 const CORPUS: &[&str] = &[
     // schedule.rs tests (durations made dyadic)
@@ -276,6 +389,9 @@ const CORPUS: &[&str] = &[
     "PULSE 0 \"y\" ramp(duration: 8.0, pad_left: 0.25)\nFENCE\nPULSE 0 \"x\" padded(pad_left: 1.0, pad_right: 0.5, amp: 1.0)\n",
     "CAPTURE 0 \"x\" ramp(duration: 0.25) ro[0]\nPULSE 0 \"x\" w4(duration: 2.0)\n",
     "PULSE 2 \"n\" ramp(duration: 0.5)\n",
+    // SAMPLE-RATE given as a string / under a lower-case key: not a sample rate
+    "PULSE 2 \"s\" w4\n",
+    "PULSE 2 \"l\" w4\nPULSE 2 \"l\" flat(duration: 1.0)\n",
     "PULSE 3 \"u\" ramp(duration: 0.5)\n",
     // a user-defined waveform named like a template: the definition wins (program.waveforms is looked up first)
     "DEFWAVEFORM flat(%duration, %iq):\n    1, 1\nPULSE 0 \"x\" flat(duration: 3.0, iq: 1.0)\nPULSE 0 \"x\" flat(duration: 1.0, iq: 1.0)\n",
@@ -339,7 +455,8 @@ fn all_seqs(len: usize, base: u64, f: &mut impl FnMut(&[u64])) {
 
 fn random_line(rng: &mut Rng) -> String {
     const D: [&str; 7] = ["0.5", "1.0", "0.25", "2.0", "1.5", "0.0", "0.125"];
-    const FR: [&str; 6] = ["0 \"x\"", "0 \"y\"", "1 \"x\"", "0 1 \"z\"", "2 \"n\"", "3 \"u\""];
+    const FR: [&str; 8] =
+        ["0 \"x\"", "0 \"y\"", "1 \"x\"", "0 1 \"z\"", "2 \"n\"", "3 \"u\"", "2 \"s\"", "2 \"l\""];
     let d = *rng.pick(&D);
     let f = *rng.pick(&FR);
     let nb = if rng.chance(1, 3) { "NONBLOCKING " } else { "" };
@@ -454,6 +571,9 @@ fn run(ctx: &mut Ctx) {
     let quick = ctx.quick();
     for text in CORPUS {
         case(ctx, "corpus", &format!("{HDR}{text}"));
+        if text.contains("DELAY") || text.contains("RAW-CAPTURE") {
+            case_negated(ctx, "corpus", &format!("{HDR}{text}"));
+        }
     }
     let max_len = if quick { 3 } else { 4 };
     for len in 0..=max_len {
@@ -478,6 +598,10 @@ fn run(ctx: &mut Ctx) {
         let cal = random_calibration(&mut rng);
         // sometimes the user DEFINES a waveform named like a template: the definition wins for every `flat(...)`
         let user_flat = if rng.chance(1, 8) { "DEFWAVEFORM flat(%duration, %iq):\n    1, 1\n" } else { "" };
-        case(ctx, "random", &format!("{HDR}{user_flat}{cal}{body}"));
+        let text = format!("{HDR}{user_flat}{cal}{body}");
+        case(ctx, "random", &text);
+        if rng.chance(1, 25) {
+            case_negated(ctx, "random", &text);
+        }
     }
 }
